@@ -44,7 +44,9 @@ DoAdd == Is("add") /\ Write(GAdd(grp, R(e.a), R(e.b)))
 DoSub == Is("sub") /\ Write(GAdd(grp, R(e.a), GNeg(grp, R(e.b))))
 DoNeg == Is("neg") /\ Write(GNeg(grp, R(e.a)))
 DoDouble == Is("double") /\ Write(GAdd(grp, R(e.a), R(e.a)))
-DoXDouble == Is("xdouble") /\ Write(PXDbl(CurveOf(grp), R(e.a), e.n))
+RECURSIVE GXDbl(_, _)
+GXDbl(P, n) == IF n = 0 THEN P ELSE GXDbl(GAdd(grp, P, P), n - 1)
+DoXDouble == Is("xdouble") /\ Write(GXDbl(R(e.a), e.n))
 DoMulSmall == Is("mul_small") /\ Write(GMul(grp, FromBytesLE(e.k), R(e.a)))
 (* ---- scalar multiplication (C04) and two-scalar combinations (C10) ---- *)
 DoMul == Is("mul") /\ Write(GMul(grp, Sc(e.k), R(e.a)))
@@ -55,6 +57,10 @@ DoMul128 == Is("mul128_add_mulgen_vartime")
             /\ Write(GAdd(grp, GMul(grp, FromBytesLE(e.u), R(e.a)), GMul(grp, Sc(e.v), GBase(grp))))
 \* s*G = R + k*Q, up to the cofactor on the Edwards curves (8*s*B = 8*R + 8*k*A)
 Cof(P) == CASE grp = "ed25519" -> PXDbl(Ed25519, P, 3) [] grp = "ed448" -> PXDbl(Ed448, P, 2) [] OTHER -> P
+\* GLS254: u0*P + u1*mu*P + v*G for two 64-bit integers u0, u1
+DoMul64Mu == Is("mul64mu_add_mulgen_vartime")
+             /\ LET k == ModAdd(FromBytesLE(e.u0), ModMul(FromBytesLE(e.u1), GlsMu, RGLS254), RGLS254)
+                IN Write(GAdd(grp, GMul(grp, k, R(e.a)), GMul(grp, Sc(e.v), GBase(grp))))
 DoVerifyHelper ==
     /\ Is("verify_helper")
     /\ LET lhs == GMul(grp, Sc(e.s), GBase(grp))
@@ -74,7 +80,7 @@ DoCondNeg == Is("set_condneg") /\ CtlOk /\ Write(IF e.ctl = "ones" THEN GNeg(grp
 
 Next == \/ DoInit \/ DoConst \/ DoDecode
         \/ DoAdd \/ DoSub \/ DoNeg \/ DoDouble \/ DoXDouble \/ DoMulSmall
-        \/ DoMul \/ DoMulGen \/ DoMulAddMulGen \/ DoMul128 \/ DoVerifyHelper
+        \/ DoMul \/ DoMulGen \/ DoMulAddMulGen \/ DoMul128 \/ DoMul64Mu \/ DoVerifyHelper
         \/ DoOneWayMap \/ DoEncode \/ DoEquals \/ DoIsNeutral \/ DoSetCond \/ DoSelect \/ DoCondNeg
 Spec == Init /\ [][Next]_vars
 Consumed == TLCGet("stats").diameter - 1
